@@ -389,8 +389,8 @@ func (ps *pathState) concretize(t *smt.Term) uint64 {
 		return t.Val
 	}
 	for n := 0; ; n++ {
-		if n > 4096 {
-			panic(pathEnd{"bound", "concretisation of a value with more than 4096 alternatives"})
+		if n > 300 {
+			panic(pathEnd{"bound", "concretisation of a value with more than 300 alternatives (unbounded symbolic value used where the code needs a concrete one)"})
 		}
 		var v uint64
 		if ps.pos < len(ps.prefix) {
@@ -414,9 +414,6 @@ func (ps *pathState) concretize(t *smt.Term) uint64 {
 			panic(pathEnd{"solver-unknown", "path condition unknown during concretisation"})
 		}
 		v, _ = ps.evalModel(t)
-		if v > 1<<40 {
-			panic(unsupported{"concretisation of a large unconstrained value"})
-		}
 		eq := smt.Eq(t, smt.BV(v, t.Width))
 		r, _ := ps.feasible(smt.Not(eq))
 		if r != smt.Unsat {
